@@ -61,9 +61,13 @@ func buildOptionOk(ctx *build.Context, tag string) bool {
 // buildTagOk returns true if a build tag matches, false otherwise
 // if first character is !, result is negated.
 func buildTagOk(ctx *build.Context, s string) (r bool) {
-	not := s[0] == '!'
+	not := strings.HasPrefix(s, "!")
 	if not {
 		s = s[1:]
+		if s == "" || strings.HasPrefix(s, "!") {
+			// A malformed negation is not satisfied, as in go/build.
+			return false
+		}
 	}
 	switch {
 	case contains(ctx.BuildTags, s):
